@@ -11,6 +11,14 @@ Definition tok_at (l : list (list Z)) (b k : nat) : Z := nth k (nth b l []) (-1)
 Definition opt_nat_eqb (a b : option nat) : bool :=
   match a, b with Some x, Some y => x =? y | None, None => true | _, _ => false end.
 
+(* number of warnings the property demands at step i with outcome `out`: one per failed computation of a block
+   that was present and reached, up to (excluding) the factor a PreconditionerValueError names *)
+Definition spec_warnings (c : cfg) (rh : list step_input) (i : step_input) (out : outcome) : nat :=
+  if refresh_step c rh i
+  then fold_right (fun b acc => (if present (i b) && reached b out
+                                 then count_fails (fin (i b)) (warn_limit b (nf c b) out) else 0) + acc) 0 (seq 0 (nb c))
+  else 0.
+
 Definition check_step (c : cfg) (rh : list step_input) (ro : list outcome) (prev : list (list Z))
                       (i : step_input) (out : outcome) (o : obs) : bool :=
   let bl := seq 0 (nb c) in
@@ -30,6 +38,8 @@ Definition check_step (c : cfg) (rh : list step_input) (ro : list outcome) (prev
   (* NaN/Inf in a factor matrix or a computed matrix of a present block at a refresh: the step raises *)
   && forallb (fun b => forallb (fun k => implb (refresh_step c rh i && present (i b) && bad_at (fin (i b)) k)
                                                (negb (outcome_eqb out Ok))) (seq 0 (nf c b))) bl
+  (* one logged warning per failed computation *)
+  && (o_warn o =? spec_warnings c rh i out)
   (* PreconditionerValueError only then, naming the first such factor of the block *)
   && match out with
      | RaisePVE b k => refresh_step c rh i && present (i b) && (b <? nb c)
@@ -57,7 +67,7 @@ Definition C13_checkb (c : cfg) (h : list step_input) (os : list obs) : bool := 
 (* behaviour only (everything but the counter values, which are internal state) *)
 Definition no_cnts (c : cfg) (rh : list step_input) (ro : list outcome) (i : step_input) (out : outcome) (o : obs) : obs :=
   {| o_out := o_out o; o_cnts := map (fun b => consec c b (i :: rh) (out :: ro)) (seq 0 (nb c));
-     o_toks := o_toks o; o_fins := o_fins o; o_pchg := o_pchg o; o_calls := o_calls o |}.
+     o_toks := o_toks o; o_fins := o_fins o; o_pchg := o_pchg o; o_calls := o_calls o; o_warn := o_warn o |}.
 Fixpoint check_beh_from (c : cfg) (rh : list step_input) (ro : list outcome) (prev : list (list Z))
                         (h : list step_input) (os : list obs) : bool :=
   match h, os with
@@ -88,6 +98,7 @@ Record step_spec (c : cfg) (rh : list step_input) (ro : list outcome) (prev : li
   sp_cnt : o_cnts o = map (fun b => consec c b (i :: rh) (out :: ro)) (seq 0 (nb c));
   sp_bad : forall b k, b < nb c -> k < nf c b -> refresh_step c rh i = true -> present (i b) = true ->
              bad_at (fin (i b)) k = true -> out <> Ok;
+  sp_warn : o_warn o = spec_warnings c rh i out;
   sp_pve : forall b k, out = RaisePVE b k ->
              refresh_step c rh i = true /\ present (i b) = true /\ b < nb c /\
              first_bad (fin (i b)) 0 (nf c b) = Some k }.
@@ -125,7 +136,7 @@ Qed.
 Lemma check_step_sound c rh ro prev i out o : check_step c rh ro prev i out o = true -> step_spec c rh ro prev i out o.
 Proof.
   unfold check_step. intros H.
-  apply andb_true_iff in H as [H H7]. apply andb_true_iff in H as [H H6]. apply andb_true_iff in H as [H H5].
+  apply andb_true_iff in H as [H H7]. apply andb_true_iff in H as [H H8]. apply andb_true_iff in H as [H H6]. apply andb_true_iff in H as [H H5].
   apply andb_true_iff in H as [H H4]. apply andb_true_iff in H as [H H3]. apply andb_true_iff in H as [H1 H2].
   split.
   - intros b Hb. rewrite forallb_forall in H1. specialize (H1 b). rewrite in_seq in H1.
@@ -141,6 +152,7 @@ Proof.
   - intros b k Hb Hk Hr Hp Hbad Ho. rewrite forallb_forall in H6. assert (Hin : In b (seq 0 (nb c))) by (apply in_seq; lia).
     specialize (H6 b Hin). rewrite forallb_forall in H6. assert (Hik : In k (seq 0 (nf c b))) by (apply in_seq; lia).
     specialize (H6 k Hik). rewrite Hr, Hp, Hbad, Ho in H6. discriminate.
+  - now apply Nat.eqb_eq.
   - intros b k Ho. subst out. apply andb_true_iff in H7 as [H7 Hd]. apply andb_true_iff in H7 as [H7 Hc].
     apply andb_true_iff in H7 as [Ha Hb]. apply Nat.ltb_lt in Hc. repeat split; auto.
     destruct (first_bad _ _ _) as [k'|]; cbn in Hd; [|discriminate]. apply Nat.eqb_eq in Hd. now subst.
@@ -193,17 +205,20 @@ Fixpoint pchg_of (a b : list block_state) : list bool :=
   | _, _ => []
   end.
 
-Definition obs_of (st st' : state) (out : outcome) : obs :=
+Definition obs_of (c : cfg) (rh : list step_input) (i : step_input) : obs :=
+  let st := state_r c rh in let st' := state_r c (i :: rh) in let out := out_r c rh i in
   {| o_out := Some out; o_cnts := map cnt (blocks st'); o_toks := toksZ st';
      o_fins := map (fun sb => map finite (facts sb)) (blocks st');
-     o_pchg := pchg_of (blocks st) (blocks st'); o_calls := ncalls st' - ncalls st |}.
+     o_pchg := pchg_of (blocks st) (blocks st'); o_calls := ncalls st' - ncalls st;
+     o_warn := expected_warnings c st st' i out |}.
 
-Fixpoint model_obs_from (c : cfg) (st : state) (h : list step_input) : list obs :=
+(* rh: the steps already taken, most recent first; h: the steps to come, oldest first *)
+Fixpoint model_obs_from (c : cfg) (rh : list step_input) (h : list step_input) : list obs :=
   match h with
   | [] => []
-  | i :: h' => let so := step c st i in obs_of st (fst so) (snd so) :: model_obs_from c (fst so) h'
+  | i :: h' => obs_of c rh i :: model_obs_from c (i :: rh) h'
   end.
-Definition model_obs (c : cfg) (h : list step_input) : list obs := model_obs_from c (init c) h.
+Definition model_obs (c : cfg) (h : list step_input) : list obs := model_obs_from c [] h.
 
 Lemma nth_map_error {A B} (g : A -> B) d : forall l k,
   nth k (map g l) d = match nth_error l k with Some x => g x | None => d end.
@@ -244,11 +259,42 @@ Proof.
   induction n; cbn; congruence.
 Qed.
 
+(* the warning count computed from the state (used by `agree`) is the one computed from the history *)
+Lemma reachedb_reached b o : reachedb b o = reached b o.
+Proof. destruct o; reflexivity. Qed.
+
+Lemma warnings_from_spec c inp o : forall bs b0, map (fun sb => length (facts sb)) bs = skipn b0 (nfs c) ->
+  warnings_from b0 bs inp o =
+  fold_right (fun b acc => (if present (inp b) && reached b o
+                            then count_fails (fin (inp b)) (warn_limit b (nf c b) o) else 0) + acc) 0 (seq b0 (length bs)).
+Proof.
+  induction bs as [|sb bs IH]; intros b0 H; cbn [warnings_from length seq fold_right]; [reflexivity|].
+  cbn [map] in H. assert (Hn : length (facts sb) = nf c b0 /\ map (fun sb => length (facts sb)) bs = skipn (S b0) (nfs c)).
+  { unfold nf. revert H. generalize (nfs c). intros l. revert b0. induction l as [|x l IHl]; intros [|b0] H; cbn in *; try discriminate.
+    - inversion H; auto.
+    - apply IHl in H. exact H. }
+  destruct Hn as [H1 H2]. rewrite (IH (S b0) H2), H1, reachedb_reached. reflexivity.
+Qed.
+
+Lemma model_warnings c rh i :
+  expected_warnings c (state_r c rh) (state_r c (i :: rh)) i (out_r c rh i) = spec_warnings c rh i (out_r c rh i).
+Proof.
+  unfold expected_warnings, spec_warnings, refresh_step. cbn [state_r].
+  rewrite step_gstep, length_state_r, gstep_state_r.
+  destruct (any_present (nb c) i) eqn:Ea; cbn [andb].
+  - replace (S (gcount (nb c) rh) =? gcount (nb c) rh) with false by (symmetry; apply Nat.eqb_neq; lia). cbn [negb andb].
+    destruct (is_refresh c (S (gcount (nb c) rh))); [|reflexivity].
+    rewrite (warnings_from_spec c i (out_r c rh i) (blocks (state_r c rh)) 0).
+    + now rewrite length_state_r.
+    + cbn [skipn]. apply (inv_nf _ _ (inv_state_r c rh)).
+  - rewrite Nat.eqb_refl. reflexivity.
+Qed.
+
 Lemma model_step_spec c rh i :
   step_spec c rh (outs_r c rh) (toksZ (state_r c rh)) i (out_r c rh i)
-            (obs_of (state_r c rh) (state_r c (i :: rh)) (out_r c rh i)).
+            (obs_of c rh i).
 Proof.
-  split; cbn [obs_of o_out o_cnts o_toks o_fins o_pchg].
+  split; unfold obs_of; cbn [o_out o_cnts o_toks o_fins o_pchg o_warn].
   - intros b Hb. apply raises_iff_consecutive_failures_exceed; exact Hb.
   - intros l f Hl Hf. apply in_map_iff in Hl as [sb [<- Hsb]]. apply in_map_iff in Hf as [fs [<- Hfs]].
     destruct (inv_state_r c (i :: rh)) as [_ Hok _]. rewrite Forall_forall in Hok. specialize (Hok sb Hsb).
@@ -261,12 +307,13 @@ Proof.
     rewrite map_length, length_state_r. apply map_ext_in. intros b Hb. apply in_seq in Hb.
     apply (counter_refines c b); lia.
   - intros b k Hb Hk Hr Hp Hbad. exact (nonfinite_raises c b k Hb rh i Hr Hp Hk Hbad).
+  - apply model_warnings.
   - intros b k Ho. assert (Hb : b < nb c) by (apply (out_r_block_range c rh i); now rewrite Ho).
     apply (pve_iff c b k Hb rh i) in Ho as [H1 [H2 [_ H3]]]. auto.
 Qed.
 
 Lemma model_spec_from c : forall h rh,
-  spec_from c rh (outs_r c rh) (toksZ (state_r c rh)) h (model_obs_from c (state_r c rh) h).
+  spec_from c rh (outs_r c rh) (toksZ (state_r c rh)) h (model_obs_from c rh h).
 Proof.
   induction h as [|i h IH]; intros rh; cbn [model_obs_from spec_from]; [exact I|].
   exists (out_r c rh i). split; [reflexivity|]. split; [apply model_step_spec|].
@@ -285,7 +332,7 @@ Module CheckerExamples.
   Example checker_accepts_model : C13_checkb c1 h5 (model_obs c1 h5) = true /\ agree c1 h5 (model_obs c1 h5) = true.
   Proof. split; reflexivity. Qed.
   Definition set_out (out : outcome) (o : obs) : obs :=
-    {| o_out := Some out; o_cnts := o_cnts o; o_toks := o_toks o; o_fins := o_fins o; o_pchg := o_pchg o; o_calls := o_calls o |}.
+    {| o_out := Some out; o_cnts := o_cnts o; o_toks := o_toks o; o_fins := o_fins o; o_pchg := o_pchg o; o_calls := o_calls o; o_warn := o_warn o |}.
   Definition swallowed : list obs :=
     match model_obs c1 h5 with
     | o1 :: o2 :: o3 :: r => o1 :: o2 :: set_out Ok o3 :: r
@@ -294,4 +341,15 @@ Module CheckerExamples.
   Example checker_rejects_swallowed_error :
     C13_behaviour_checkb c1 h5 swallowed = false /\ C13_checkb c1 h5 swallowed = false /\ agree c1 h5 swallowed = false.
   Proof. repeat split; reflexivity. Qed.
+  (* a run that does not log the warning of the failed computation of step 1 is rejected as well *)
+  Definition silent : list obs :=
+    match model_obs c1 h5 with
+    | o1 :: r => {| o_out := o_out o1; o_cnts := o_cnts o1; o_toks := o_toks o1; o_fins := o_fins o1; o_pchg := o_pchg o1;
+                    o_calls := o_calls o1; o_warn := 0 |} :: r
+    | l => l
+    end.
+  Example warnings_of_model_run : map o_warn (model_obs c1 h5) = [1; 0; 1; 0; 0].
+  Proof. reflexivity. Qed.
+  Example checker_rejects_missing_warning : C13_behaviour_checkb c1 h5 silent = false /\ agree c1 h5 silent = false.
+  Proof. split; reflexivity. Qed.
 End CheckerExamples.
